@@ -21,9 +21,10 @@ import Driver.TriggerOps
 import Driver.InlineOps
 import Driver.PyOps
 import Driver.CodeOps
+import Driver.HtmlTokOps
 
 namespace Driver
 
-def handlers : List Handler := [registryHandler, dispatchHandler, normalizeHandler, tablesHandler, blockHandler, threadsHandler, tocHandler, serializerHandler, codeHandler, pyHandler, inlineHandler, triggerHandler, extractEvHandler, attrListHandler, pipelineHandler, configHandler, codecHandler, blockExtHandler, docHandler, pipelineXHandler]
+def handlers : List Handler := [registryHandler, dispatchHandler, normalizeHandler, tablesHandler, blockHandler, threadsHandler, tocHandler, serializerHandler, codeHandler, pyHandler, inlineHandler, triggerHandler, extractEvHandler, attrListHandler, pipelineHandler, configHandler, codecHandler, blockExtHandler, docHandler, pipelineXHandler, htmlTokHandler]
 
 end Driver
